@@ -568,7 +568,7 @@ func (s *Service) handleSuccessfulResponse(ctx context.Context, w http.ResponseW
 		}
 	}
 
-	w.WriteHeader(resp.StatusCode)
+	w.WriteHeader(core.RelayableStatus(resp.StatusCode))
 
 	// start streaming the response body
 	rlog.Debug("starting response stream")
